@@ -30,7 +30,11 @@ ASSUMPTIONS = [
     'another indexer are outside the property (both sides answer `skip`)',
     'phase views (ms[phase]), from_streams, copy(thermo=...), copy_flow and units/total_flow constructor arguments '
     'are not generated; IDs of unnamed streams are not observed',
-    'Python pickle protocol itself is trusted; only __reduce__ / from_data / set_data are modelled',
+    'Python pickle protocol itself is trusted; only __reduce__ / from_data / set_data are modelled; pickling of '
+    'Reaction / ParallelReaction / Chemical / Thermo is checked by the oracle on the real objects (observable state '
+    'before vs after) and modelled only as slot-wise reconstruction (theorem slot_pickle_roundtrip)',
+    'the model has the behaviour WITH the patches fixes_proposed/C13-1 ... C13-8; on a tree without them the oracle '
+    'reports the corresponding failures and the case ends at the failing operation',
 ]
 TRUSTED = ['Lean 4.33 kernel', 'correspondence harness harness/props/c13.py + Driver/C13.lean',
            'generator reach (see histogram)', 'pickle module']
@@ -81,7 +85,7 @@ def setup():
 
 def budget(tier):
     return {'quick': dict(seconds=60, cases=2000, shrink_s=15, search_s=5),
-            'thorough': dict(seconds=420, cases=40000, shrink_s=40, search_s=20)}[tier]
+            'thorough': dict(seconds=400, cases=30000, shrink_s=40, search_s=20)}[tier]
 
 
 # --------------------------------------------------------------------------
